@@ -273,24 +273,34 @@ pub fn check(c: &Case5, st: &mut Stats, tier: Tier) -> CheckResult {
         Case5::PyRecords { .. } => Ok(()),
         Case5::Sequence { a, b, deltas, on_b } => {
             let (a2, b2) = if *on_b { (a.clone(), nudge(b, deltas)) } else { (nudge(a, deltas), b.clone()) };
-            // first pair, then the neighbour, then the first pair again - every result against the reference
-            check(&Case5::Pair { a: a.clone(), b: b.clone() }, st, tier)?;
-            check(&Case5::Pair { a: a2.clone(), b: b2.clone() }, st, tier)?;
-            // interleaved single operations (no other call in between)
+            // interleaved single operations first, compared structurally only (rendering a value divides, and a stale
+            // cache can make that loop forever): nothing else is called in between
             let (ia, ib, ia2, ib2) = (a.to_impl(), b.to_impl(), a2.to_impl(), b2.to_impl());
             let (ra, rb, ra2, rb2) = (a.to_ref(), b.to_ref(), a2.to_ref(), b2.to_ref());
+            let same = |got: &BigNum, want: &RefInt| -> bool {
+                let w = impl_from_ref(want);
+                *got == w && w == *got
+            };
             let q1 = &ia / &ib;
             let q2 = &ia2 / &ib2;
             let r2 = &ia2 % &ib2;
             let r1 = &ia % &ib;
-            expect(&q1, &ra.divrem_trunc(&rb).0, "c05:div-sequence", &|| format!("{} / {} (first of two consecutive divisions)", ra.to_dec(), rb.to_dec()), 16)?;
-            expect(&q2, &ra2.divrem_trunc(&rb2).0, "c05:div-sequence", &|| format!("{} / {} right after {} / {}", ra2.to_dec(), rb2.to_dec(), ra.to_dec(), rb.to_dec()), 16)?;
-            expect(&r2, &ra2.divrem_trunc(&rb2).1, "c05:rem-sequence", &|| format!("{} % {} right after dividing the neighbouring pair", ra2.to_dec(), rb2.to_dec()), 16)?;
-            expect(&r1, &ra.divrem_trunc(&rb).1, "c05:rem-sequence", &|| format!("{} % {} right after {} % {}", ra.to_dec(), rb.to_dec(), ra2.to_dec(), rb2.to_dec()), 16)?;
+            let q1b = &ia / &ib;
+            ensure!(same(&q1, &ra.divrem_trunc(&rb).0), "c05:div-sequence", "{} / {} is not {}", ra.to_dec(), rb.to_dec(), ra.divrem_trunc(&rb).0.to_dec());
+            ensure!(same(&q2, &ra2.divrem_trunc(&rb2).0), "c05:div-sequence", "{} / {} computed right after {} / {} is not {}", ra2.to_dec(), rb2.to_dec(), ra.to_dec(), rb.to_dec(), ra2.divrem_trunc(&rb2).0.to_dec());
+            ensure!(same(&r2, &ra2.divrem_trunc(&rb2).1), "c05:rem-sequence", "{} % {} computed right after dividing the neighbouring pair is not {}", ra2.to_dec(), rb2.to_dec(), ra2.divrem_trunc(&rb2).1.to_dec());
+            ensure!(same(&r1, &ra.divrem_trunc(&rb).1), "c05:rem-sequence", "{} % {} computed right after {} % {} is not {}", ra.to_dec(), rb.to_dec(), ra2.to_dec(), rb2.to_dec(), ra.divrem_trunc(&rb).1.to_dec());
+            ensure!(same(&q1b, &ra.divrem_trunc(&rb).0), "c05:div-sequence", "{} / {} computed right after {} % {} is not {}", ra.to_dec(), rb.to_dec(), ra.to_dec(), rb.to_dec(), ra.divrem_trunc(&rb).0.to_dec());
             let m1 = &ia * &ib;
             let m2 = &ia2 * &ib2;
-            expect(&m1, &ra.mul(&rb), "c05:mul-sequence", &|| "first product".to_string(), 16)?;
-            expect(&m2, &ra2.mul(&rb2), "c05:mul-sequence", &|| format!("{} * {} right after the neighbouring product", ra2.to_dec(), rb2.to_dec()), 16)?;
+            let s1 = &ia + &ib;
+            let s2 = &ia2 + &ib2;
+            ensure!(same(&m1, &ra.mul(&rb)), "c05:mul-sequence", "{} * {} is not {}", ra.to_dec(), rb.to_dec(), ra.mul(&rb).to_dec());
+            ensure!(same(&m2, &ra2.mul(&rb2)), "c05:mul-sequence", "{} * {} computed right after the neighbouring product is not {}", ra2.to_dec(), rb2.to_dec(), ra2.mul(&rb2).to_dec());
+            ensure!(same(&s1, &ra.add(&rb)) && same(&s2, &ra2.add(&rb2)), "c05:add-sequence", "sums of neighbouring pairs {} + {} / {} + {}", ra.to_dec(), rb.to_dec(), ra2.to_dec(), rb2.to_dec());
+            // then the full battery on both pairs
+            check(&Case5::Pair { a: a.clone(), b: b.clone() }, st, tier)?;
+            check(&Case5::Pair { a: a2.clone(), b: b2.clone() }, st, tier)?;
             st.class("consecutive operations on neighbouring operands");
             Ok(())
         }
